@@ -261,6 +261,12 @@ func genPow() {
 	g.def("maxHashHex", "String", leanString(constant.StringVal(p2.eval(mh[0], 0))))
 	g.def("uint64RadixSrc", "String", leanString(p2.src(p2.varExpr("uint64Radix"))))
 	g.raw(translateFunc(p2, "tritToUint"))
+	g.def("mineSkeletonV1", "List String", syncSkeleton(p1, "Worker.Mine"))
+	g.def("mineSkeletonV2", "List String", syncSkeleton(p2, "Worker.Mine"))
+	g.def("workerSkeletonV1", "List String", syncSkeleton(p1, "Worker.worker"))
+	g.def("workerSkeletonV2", "List String", syncSkeleton(p2, "Worker.worker"))
+	g.def("doneAccessesV1", "List String", identUses(p1, []string{"Worker.Mine", "Worker.worker"}, "done"))
+	g.def("doneAccessesV2", "List String", identUses(p2, []string{"Worker.Mine", "Worker.worker"}, "done"))
 	g.src(p1, "Score", "trailingZeros", "encodeNonce", "New", "Worker.Mine", "Worker.worker", "checkStateTrits")
 	g.src(p2, "Score", "difficulty", "encodeNonce", "toInt", "tritToUint", "hexToInt", "New", "Worker.Mine",
 		"sufficientTrailingZeros", "targetHash", "Worker.worker", "checkStateTrits", "stateToInt")
@@ -524,4 +530,114 @@ func parseAsm(path string) string {
 		}
 	}
 	return strings.Join(out, ",\n") + "\n"
+}
+
+// syncSkeleton lists, in source order, the synchronisation operations of a function: channel creation
+// (with its capacity expression), go statements, select arms, atomic.* calls, WaitGroup calls, close,
+// channel sends and receives, defer of any of these, and return statements of the outermost function.
+func syncSkeleton(p *pkg, fn string) string {
+	var out []string
+	fd := p.method(fn)
+	var walk func(n ast.Node, depth int)
+	walk = func(n ast.Node, depth int) {
+		ast.Inspect(n, func(m ast.Node) bool {
+			switch x := m.(type) {
+			case *ast.GoStmt:
+				out = append(out, "go{")
+				walk(x.Call.Fun, depth+1)
+				out = append(out, "}")
+				return false
+			case *ast.DeferStmt:
+				out = append(out, "defer "+normWS(p.src(x.Call)))
+				return false
+			case *ast.SelectStmt:
+				out = append(out, "select{")
+				for _, c := range x.Body.List {
+					cc := c.(*ast.CommClause)
+					if cc.Comm == nil {
+						out = append(out, "default:")
+					} else {
+						out = append(out, "case "+normWS(p.src(cc.Comm))+":")
+					}
+					for _, st := range cc.Body {
+						walk(st, depth)
+					}
+				}
+				out = append(out, "}")
+				return false
+			case *ast.SendStmt:
+				out = append(out, "send "+normWS(p.src(x)))
+				return false
+			case *ast.UnaryExpr:
+				if x.Op == token.ARROW {
+					out = append(out, "recv "+normWS(p.src(x)))
+				}
+			case *ast.CallExpr:
+				src := normWS(p.src(x.Fun))
+				switch {
+				case src == "make":
+					if len(x.Args) > 0 {
+						if _, ok := x.Args[0].(*ast.ChanType); ok {
+							out = append(out, "make "+normWS(p.src(x)))
+						}
+					}
+				case strings.HasPrefix(src, "atomic."), src == "close", strings.HasPrefix(src, "wg."):
+					out = append(out, "call "+normWS(p.src(x)))
+				}
+			case *ast.ReturnStmt:
+				if depth == 0 {
+					out = append(out, normWS(p.src(x)))
+				}
+			}
+			return true
+		})
+	}
+	walk(fd.Body, 0)
+	var q []string
+	for _, o := range out {
+		// the verification hooks are not part of the protocol
+		if strings.Contains(o, "verifEvent") {
+			continue
+		}
+		q = append(q, leanString(o))
+	}
+	return "[" + strings.Join(q, ", ") + "]"
+}
+
+// identUses lists every syntactic context in which identifier `name` is used inside the given functions.
+func identUses(p *pkg, fns []string, name string) string {
+	var out []string
+	for _, fn := range fns {
+		fd := p.method(fn)
+		var stack []ast.Node
+		ast.Inspect(fd, func(n ast.Node) bool {
+			if n == nil {
+				stack = stack[:len(stack)-1]
+				return true
+			}
+			if id, ok := n.(*ast.Ident); ok && id.Name == name {
+				// innermost enclosing call or declaration
+				ctx := ""
+				for i := len(stack) - 1; i >= 0 && ctx == ""; i-- {
+					switch y := stack[i].(type) {
+					case *ast.CallExpr:
+						ctx = normWS(p.src(y))
+					case *ast.ValueSpec:
+						ctx = "var " + normWS(p.src(y))
+					case *ast.Field:
+						ctx = "param " + normWS(p.src(y))
+					}
+				}
+				if strings.Contains(ctx, "verifEvent") {
+					ctx = ""
+				}
+				if ctx != "" {
+					out = append(out, leanString(ctx))
+				}
+			}
+			stack = append(stack, n)
+			return true
+		})
+	}
+	return "[" + strings.Join(out, ", ") + "]"
 }
